@@ -154,6 +154,13 @@ class C15(PropBase):
             else:
                 text += "FUNC 100 200 0 %s\n100 10 42 0\n110 1f0 4294967295 0\n" % fn
             text += "PUBLIC 1000 0 %s\n" % pub
+            if rng.chance(1, 2):       # call frame info so that frames recovered with trust "cfi" occur
+                if c.arch in (0, 10):
+                    text += "STACK CFI INIT 100 200 .cfa: $esp 4 + .ra: .cfa 4 - ^\n"
+                elif c.arch == 9:
+                    text += "STACK CFI INIT 100 200 .cfa: $rsp 8 + .ra: .cfa 8 - ^\n"
+                elif c.arch == 12:
+                    text += "STACK CFI INIT 100 200 .cfa: sp 16 + .ra: .cfa -8 + ^\n"
             syms.append((i, text))
         line = base.format_case(c)
         line += " X TN %d %s MN %d %s UN %d %s SYM %d %s" % (
@@ -225,8 +232,20 @@ class C15(PropBase):
             cpuinfo = hx("processor\t: 0\nvendor_id\t: GenuineIntel\nmicrocode\t: %s\n" % rng.choice(["0x1a", "0xffffffffffffffff", "0x0", "zz", "26"]))
             lsb = hx("DISTRIB_ID=%s\nDISTRIB_RELEASE=\"22.04\"\nDISTRIB_CODENAME=%s\nDISTRIB_DESCRIPTION=\"%s\"\n" % (
                 rng.choice(["Ubuntu", "de\\b\"ian"]), rng.choice(["jammy", "x\ty"]), rng.choice([s for s in HOSTILE if "\n" not in s and "\r" not in s and "\x00" not in s])))
-        return "INS %s REGS %d %s MINFO %d %s CPUINFO %s LSB %s" % (
-            ins, len(regs), " ".join(map(str, regs)), len(minfo), " ".join("%d %d %d" % m for m in minfo), cpuinfo, lsb)
+        limits = soft = maps = "-"
+        if osc == c14mod.OS_LINUX and rng.chance(1, 2):
+            rows = [("Max cpu time", "unlimited", "unlimited", "seconds"), ("Max open files", "1024", "1048576", "files"),
+                    ("Max nice priority", "0", "0", ""), ("Max stack size", "8388608", "unlimited", "bytes"), ("Max weird", "x", "18446744073709551615", "q\"uote")]
+            text = "Limit                     Soft Limit           Hard Limit           Units     \n"
+            for (n, a, b, u) in rows[:rng.range(1, len(rows))]:
+                text += "%-26s%-21s%-21s%-10s\n" % (n, a, b, u)
+            limits = hx(text)
+            if not minfo:
+                maps = hx("10000000-10001000 r-xp 00000000 08:01 1234 /bin/x\n7f0000000000-7f0000002000 rw-p 00000000 00:00 0 [stack]\n")
+        if rng.chance(1, 6):
+            soft = hx(rng.choice(['[{"ListKindMissing": {"kind": "Threads"}}]', '[]', '[{"a": [1, 2.5, null, "x\\"y"]}, {"b": {}}]']))
+        return "INS %s REGS %d %s MINFO %d %s CPUINFO %s LSB %s LIMITS %s SOFT %s MAPS %s" % (
+            ins, len(regs), " ".join(map(str, regs)), len(minfo), " ".join("%d %d %d" % m for m in minfo), cpuinfo, lsb, limits, soft, maps)
 
     def gen_cases(self, tier, seed):
         rng = Rng(seed * 7919 + 15)
